@@ -474,7 +474,40 @@ func checkC19(c *core.Ctx) {
 				})
 			}
 			c.Notes["bebopfmt_reparses_output_before_replacing"] = n >= 2
-			c.Check("R4", "bebopfmt parses the input before formatting it", p.Pos(fd.Pos()), n >= 1, "formatting a file that does not parse would write garbage over it")
+			// the parse that guards the file is a parse of the *input*: where
+			// ReadFile and Format are called from one function, a ReadFile
+			// precedes the Format call. Format stops at what the tokenizer
+			// refuses and writes what it had: its output can parse where the
+			// input does not, so a parse of the output alone lets a truncated
+			// schema replace the file.
+			inputFirst, sameFn := false, false
+			for _, d := range declClosure(p, pk, fd, 2) {
+				var reads []token.Pos
+				var format token.Pos
+				ast.Inspect(d.Body, func(m ast.Node) bool {
+					if call, ok := m.(*ast.CallExpr); ok {
+						switch wire.Canon(call.Fun) {
+						case "bebop.ReadFile":
+							reads = append(reads, call.Pos())
+						case "bebop.Format":
+							if format == 0 {
+								format = call.Pos()
+							}
+						}
+					}
+					return true
+				})
+				if format != 0 && len(reads) > 0 {
+					sameFn = true
+					for _, r := range reads {
+						if r < format {
+							inputFirst = true
+						}
+					}
+				}
+			}
+			c.Check("R4", "bebopfmt parses the input before formatting it", p.Pos(fd.Pos()), n >= 1 && (!sameFn || inputFirst),
+				"no bebop.ReadFile precedes bebop.Format: formatting a file that does not parse would write garbage over it, and a parse of the formatted output alone does not help — Format stops at the first byte the tokenizer refuses and what it wrote until then can parse")
 		}
 	}
 }
